@@ -12,8 +12,8 @@ CLAIM = dict(
          'recomputes the acceptance from the tuple, demands: not accepted => every form panicked, and for an out-of-range row/column/band/node/entry '
          'address the receiver is bit-for-bit unchanged after the panic; accepted => no panic (on well-formed operands: every size >= 1, band widths '
          'below the dimension), every borrowed operand bit-for-bit unchanged (FNV hash of the IEEE bit patterns and the integer values), all forms '
-         'return the same result; and the set of entry points executed equals the table key set. Ohsl.tla gives the workspace semantics '
-         '(Create, Clone, Mutate changes one object only, Observe changes nothing, Convert, Drop); TLC proves Independent over every interleaving '
+         'return the same result; and the set of entry points executed equals the table key set. The same tuples are executed again (sizes 0..4, quick 0..3) on AGED receivers - built at an old size and brought to the tuple size by every size-changing operation of the type (Vector resize/pop/push/clear/insert, Matrix resize/delete_row/transpose_in_place/clear, Banded::resize, Tridiagonal::resize, Sparse insert/transpose, Polynomial push/pop/trim, Mesh1D::read with fewer/more nodes; the predicate is evaluated on the NEW size, indices cover the old and the new range) - and every by-reference/consuming pair is executed on operand VARIANTS (negative entries, zeros, -0.0; second operand distinct / equal / all-zero / identity / the SAME object; scalars 0.0, -0.0, 1, -1, 2, 0.5), results compared by IEEE bit pattern. Ohsl.tla gives the workspace semantics '
+         '(Create, Clone, Mutate - incl. the size-changing operations - changes one object only, Observe changes nothing, Convert, Drop); TLC proves Independent over every interleaving '
          'of <= 4 mutations of a value and its clone for Vector, Polynomial, Matrix, Banded, Tridiagonal (an aliasing clone is exhibited as a '
          'counterexample), replays those interleavings on the real types, and validates 200-step random workspace sessions over all eight '
          'container kinds incl. cross-type conversions: after every step the value of EVERY live object must equal the model value.',
@@ -68,7 +68,7 @@ def check(ctx):
     if seen != keys:
         raise vlib.ToolError('entry points executed differ from the table: missing %s, extra %s' % (sorted(keys - seen)[:8], sorted(seen - keys)[:8]))
     ctx.validate('Trace_Guards', ev, cases, 'guards', key=lambda e: (e.get('g'), e.get('t'), [(fr['f'], fr['panic']) for fr in e.get('forms', [])]))
-    ctx.exhaustive_parts.append('%d entry points in %d groups, every size/index tuple of the stated range (%d calls)' % (len(keys), len(groups), n))
+    ctx.exhaustive_parts.append('%d entry points in %d groups, every size/index tuple of the stated range on fresh operands, on aged receivers (every size-changing preparation) and on the operand variants of the pairs (%d calls)' % (len(keys), len(groups), n))
 
     # ---- spec -> impl: every clone/mutation interleaving of the model on the real types
     cl = ctx.tlc_cases('MC_Ohsl', 'Gen_Ohsl_quick.cfg' if q else 'Gen_Ohsl.cfg', transform=_stamp('clone'), name='gen_ohsl')
